@@ -180,7 +180,11 @@ func (c *CoffCase) Judge(rs []Res, env *Env) Outcome {
 				return fail("symbol-section", fmt.Sprintf("defined GLOBAL %s has section number %d, expected 1", s.Name, s.Section))
 			}
 			if to, ok := trueOff[s.Name]; ok && int(s.Value) != to {
-				return fail("symbol-value", fmt.Sprintf("GLOBAL %s has value %d, the label really is at offset %d of .text", s.Name, s.Value, to))
+				kind := "symbol-value"
+				if len(c.P.Stmts) > 0 && c.P.Stmts[0].K == "org" {
+					kind = "symbol-value-org" // the source has an ORG: gosk records origin + offset (finding F901)
+				}
+				return fail(kind, fmt.Sprintf("GLOBAL %s has value %d, the label really is at offset %d of .text", s.Name, s.Value, to))
 			}
 		} else if s.Section != 0 {
 			return fail("symbol-section", fmt.Sprintf("undefined GLOBAL %s has section number %d, expected 0", s.Name, s.Section))
@@ -263,6 +267,10 @@ func genCoffCase(r *Rand, prop string, reserved []string, big bool) *CoffCase {
 	}
 	if r.Chance(1, 10) {
 		body = nil // empty .text
+	}
+	if prop == "C09" && len(body) > 0 && r.Chance(1, 8) {
+		// an ORG in a source that is assembled to an object: the code must still be the code of the flat binary
+		body = append([]PStmt{{K: "org", N: int64(Pick(r, []int{0x1000, 0x280000, 0x7c00}))}}, body...)
 	}
 	if big && len(body) > 0 {
 		// > 64 KiB of .text
